@@ -441,6 +441,30 @@ def check_sharing(chk, rng):
         if rng.random() < 0.5 and var != "dup-sink":   # the other statement first
             lines[5], lines[6] = lines[6].replace(" sameas=3", ""), lines[5] + ("" if var == "diff-scalar" else " sameas=4")
         scns.append("\n".join(lines))
+    # the same definition with equal scalars on two different elements of ONE producer's list output: the inputs differ
+    # (only) in the path below the producer, so the two statements must stay distinct
+    recs_of = {}
+    for k in range(12 if chk.tier == "quick" else 150):
+        horizon = 6
+        s1 = P.gen_script(rng, horizon, maxlen=3)
+        s2 = P.gen_script(rng, horizon, maxlen=4, values=(10, 20, 30))
+        kind = rng.choice(["add", "delay", "acc", "count"])
+        ka = rng.randint(1, 2)
+        nodes = [P.node("src", script=s1), P.node("src", script=s2), P.node("elem0", ins=[1, 2]), P.node("elem1", ins=[1, 2]),
+                 P.node(kind, ins=[3], k=ka), P.node(kind, ins=[4], k=ka), P.node("rec", ins=[5]), P.node("rec", ins=[6])]
+        nodes[2]["pack"] = nodes[3]["pack"] = 1
+        p = P.program(9000 + k, nodes, start=1, end=horizon + 1)
+        script = lambda s: ";".join("%d:%d" % (t, v) for t, v in s)
+        par = (" k=%d" % ka) if kind == "add" else (" d=%d" % ka) if kind == "delay" else ""
+        lines = ["scn share%d-diff-element" % k, "opt start=1 end=%d" % (horizon + 1), "graph root", "n 1 src script=" + script(s1),
+                 "n 2 src script=" + script(s2), "n 900 pack2 in=1,2", "n 3 elem in=900 i=0", "n 4 elem in=900 i=1",
+                 "n 5 %s%s in=3" % (kind, par), "n 6 %s%s in=4 sameas=5" % (kind, par), "n 7 rec in=5", "n 8 rec in=6", "endgraph", "run"]
+        if rng.random() < 0.5:
+            lines[8], lines[9] = lines[9].replace(" sameas=5", ""), lines[8] + " sameas=6"
+        progs.append(p)
+        kinds.append("diff-element")
+        scns.append("\n".join(lines))
+        recs_of[p["id"]] = ((7, 5), (8, 6))
     preds, res = dfcheck.predict(progs, tag="c06share")
     chk.add_tlc(res, "sharing")
     traces = hg.run_driver("engine", scns)
@@ -455,7 +479,7 @@ def check_sharing(chk, rng):
             continue
         w, cyc, errs, ret = P.observed(tr)
         pw, _, _ = P.predicted(preds[p["id"]])
-        for rid, nid in ((5, 3), (6, 4)):
+        for rid, nid in recs_of.get(p["id"], ((5, 3), (6, 4))):
             want = pw.get(rid, [])
             got = w.get(rid, [])
             if var == "dup-sink" and rid == 5:
